@@ -199,6 +199,17 @@ def r2(R, m, methods):
                                    and src(s_.targets[0].slice) == src(n.target.elts[0]) and src(s_.value) == src(n.target.elts[1])]
                     if len(slot_stores) == 1 and len(n.body) == 1:
                         stores2.append(n)
+            # ... or 'for i in range(len(new)): self.__data[i] = new[i]'
+            if isinstance(n, ast.For) and isinstance(n.iter, ast.Call) and pyfacts.dotted(n.iter.func) == "range" and len(n.iter.args) == 1 and isinstance(n.target, ast.Name) \
+                    and isinstance(n.iter.args[0], ast.Call) and pyfacts.dotted(n.iter.args[0].func) == "len" and len(n.iter.args[0].args) == 1 \
+                    and isinstance(n.iter.args[0].args[0], ast.Name):
+                lst = n.iter.args[0].args[0]
+                other = pyfacts.resolved(fnn, lst, 2, keep=("self",)) if (fnn := pyfacts.normalise_loops(pyfacts.clone(fn))) is not None else None
+                if isinstance(other, ast.ListComp) and len(other.generators) == 1 and is_self_data(other.generators[0].iter) and not other.generators[0].ifs:
+                    slot_stores = [s_ for s_ in n.body if isinstance(s_, ast.Assign) and isinstance(s_.targets[0], ast.Subscript) and is_self_data(s_.targets[0].value)
+                                   and src(s_.targets[0].slice) == n.target.id and src(s_.value).replace(" ", "") == "%s[%s]" % (lst.id, n.target.id)]
+                    if len(slot_stores) == 1 and len(n.body) == 1:
+                        stores2.append(n)
         loops = [(k_, n) for k_, n in loops]
         recognised = {id(n) for k_, n in loops} | {id(n) for n in stores2}
         for n in ast.walk(fn):
@@ -247,7 +258,8 @@ def r2(R, m, methods):
     cfg = pyfacts.PyCFG(fn)
     nr = [s for s in ast.walk(fn) if isinstance(s, ast.Assign) and any(src(t) == "self.nrows" for t in s.targets)]
     sa = [s for s in ast.walk(fn) if isinstance(s, ast.Expr) and isinstance(s.value, ast.Call) and pyfacts.dotted(s.value.func) == "self.set_attributes"]
-    ok = len(nr) == 1 and len(sa) >= 1 and "self.__data" in src(nr[0].value) and "len(" in src(nr[0].value)
+    nrv = pyfacts.resolved_src(fn, nr[0].value, 2, keep=("self",)) if len(nr) == 1 else ""
+    ok = len(nr) == 1 and len(sa) >= 1 and "self.__data" in nrv and "len(" in nrv
     if ok:
         ok = cfg.dominates(cfg.node_of(nr[0]), cfg.node_of(sa[-1])) and nr[0].lineno > max(
             [s.lineno for s, w in data_writes(fn)] or [0])
